@@ -172,6 +172,21 @@ def run(ctx):
         else:
             if pushes:
                 pushes_ok, why = False, "a w-mer is pushed although fewer than w clean bases are available"
+    # the list only ever grows by those pushes (and is cleared / handed over whole): no other mutation touches it
+    ALLOWED_K = {"push", "clear", "clone_from", "clone", "len", "is_empty", "iter", "as_slice", "reserve", "shrink_to_fit",
+                 "capacity", "with_capacity", "deref", "extend_from_slice"}
+    foreign = None
+    for n_ in fv.nodes:
+        if n_.get("k") == "mcall":
+            r_ = n_["recv"]
+            while r_.get("k") in ("addr", "un") and r_.get("e") is not None:
+                r_ = r_["e"]
+            if r_.get("k") == "local" and r_.get("name") in PROJ_LOCALS and cname(n_).split("::")[-1] not in ALLOWED_K \
+                    and str(n_["recv"].get("aty", n_["recv"].get("ty", ""))).startswith("&mut"):
+                foreign = foreign or n_
+    ctx.check("C18.K", "next:k_list_only_pushed", foreign is None, "the w-mer list is only pushed to, cleared or handed over",
+              "the w-mer list is also modified by `%s`: w-mers of valid windows would be dropped, merged or reordered"
+              % (cname(foreign) if foreign else ""), line_of(foreign) if foreign else None)
     ctx.check("C18.K", "next:push_on_saturation", pushes_ok and n_push >= 1,
               "w-mer min(k_f, k_r) pushed exactly when k_val_l reaches wsize (%d paths)" % n_push, why or "no pushing path found",
               fv.fn["sp"])
